@@ -17,7 +17,7 @@ RULE = ("cases from rng(seed, 16, 0, i): 4 of 5 cases evaluate BaseEdge.calc_jac
         "generic rotations, a fifth of them with a bit-exactly zero residual) and on built-in odometry/landmark edges; 1 of 5 optimizes a cluster graph whose custom edges use numerical Jacobians and its AD twin "
         "(tol=1e-12, max_iter=50) inside the C05 neighbourhood. distinct = fingerprint of the edge operands / spec; non-trivial = Jacobian with a non-zero rotational block "
         "or twin graphs that moved by > 1e-6.")
-REQ = ["eval:numerical-jacobian-accuracy", "eval:twin-optimum-agrees", "eval:twin-chi2-agrees"] + ["family:" + n for n in custom.TYPES] + ["family:builtin-odometry", "family:builtin-landmark",
+REQ = ["eval:numerical-jacobian-accuracy", "eval:twin-optimum-agrees", "eval:twin-chi2-agrees"] + ["family:" + n for n in custom.TYPES if n != "faulty"] + ["family:builtin-odometry", "family:builtin-landmark",
                                                                                                                           "class:ternary", "class:unary", "kind:se3", "kind:se2", "class:exactly_zero_residual"]
 PLAN = {
     "quick": {"cases": 2500, "soft_s": 80, "min_nontrivial": 600, "require": REQ},
@@ -133,7 +133,7 @@ def jacobian_check(ctx, e, fam, case):
 
 
 def direct_case(ctx, i, rng):
-    fams = list(custom.TYPES) + ["builtin-odometry", "builtin-landmark"]
+    fams = [n for n in custom.TYPES if n != "faulty"] + ["builtin-odometry", "builtin-landmark"]
     fam = fams[(i // 5) % len(fams)]
     k = R.KINDS[(i // 45) % 4] if False else str(rng.choice(R.KINDS))
     scale = float(10 ** rng.uniform(0, 3))
